@@ -119,6 +119,43 @@ func renderNode(w io.Writer, node *html.Node, indent int) error {
 	return renderNodeWithContext(ctx, w, node, indent)
 }
 
+// renderPreformatted writes a node inside <pre> / <textarea>: no indentation, no added line breaks.
+func renderPreformatted(ctx VueContext, w io.Writer, node *html.Node) error {
+	switch node.Type {
+	case html.TextNode:
+		if shouldEscapeTextNode(node.Data) {
+			_, _ = w.Write([]byte(html.EscapeString(node.Data)))
+		} else {
+			_, _ = w.Write([]byte(node.Data))
+		}
+	case html.ElementNode:
+		content, evaluated := "", false
+		for _, attr := range node.Attr {
+			if attr.Key == "data-v-html-content" || attr.Key == "data-v-text-content" {
+				content, evaluated = attr.Val, true
+				break
+			}
+		}
+		keep := node.Data != "template" || helpers.HasAttr(node, "v-keep")
+		if keep {
+			_, _ = w.Write([]byte("<" + node.Data + renderAttrs(helpers.FilterAttrs(node.Attr, "v-keep")) + ">"))
+		}
+		if evaluated {
+			_, _ = w.Write([]byte(content))
+		} else {
+			for c := node.FirstChild; c != nil; c = c.NextSibling {
+				if err := renderPreformatted(ctx, w, c); err != nil {
+					return err
+				}
+			}
+		}
+		if keep {
+			_, _ = w.Write([]byte("</" + node.Data + ">"))
+		}
+	}
+	return nil
+}
+
 func renderNodeWithContext(ctx VueContext, w io.Writer, node *html.Node, indent int) error {
 	switch node.Type {
 	case html.TextNode:
@@ -179,6 +216,26 @@ func renderNodeWithContext(ctx VueContext, w io.Writer, node *html.Node, indent 
 				_, _ = w.Write([]byte(content))
 				_, _ = w.Write([]byte("</" + tagName + ">\n"))
 			}
+			return nil
+		}
+
+		// Whitespace is content inside <pre> and <textarea>: the children are written as they are,
+		// without the indentation and line breaks used elsewhere
+		if tagName == "pre" || tagName == "textarea" {
+			_, _ = w.Write([]byte(spaces + "<" + tagName + renderAttrs(node.Attr) + ">"))
+			// the parser drops one newline right after the start tag: write it back when the
+			// content itself starts with a newline
+			if firstChild != nil && firstChild.Type == html.TextNode && strings.HasPrefix(firstChild.Data, "\n") {
+				_, _ = w.Write([]byte("\n"))
+			}
+			ctx.PushTag(tagName)
+			for c := firstChild; c != nil; c = c.NextSibling {
+				if err := renderPreformatted(ctx, w, c); err != nil {
+					return err
+				}
+			}
+			ctx.PopTag()
+			_, _ = w.Write([]byte("</" + tagName + ">\n"))
 			return nil
 		}
 
